@@ -777,7 +777,18 @@ def bytecode_projects(seed, n):
             files[sh + ".aelys"] = ("needs std.io\n" + ("needs base\n" if chain else "") + f'io.println("I:{sh}")\n'
                                     + (f"let b_{sh} = base.tick_base()\n" if chain else "")
                                     + f"let mut c_{sh} = 0\npub fn bump_{sh}() {{\n    c_{sh} = c_{sh} + 1\n    return c_{sh}\n}}\n"
-                                    + (f"pub fn base_{sh}() {{ return b_{sh} }}\n" if chain else ""))
+                                    + (f"pub fn base_{sh}() {{ return b_{sh} }}\n" if chain else "")
+                                    # an exported CLOSURE that changes a global of its own module ...
+                                    + f"let mut calls_{sh} = 0\nfn make_adder_{sh}(n) {{\n    return fn(x) {{\n        calls_{sh} = calls_{sh} + 1\n"
+                                      f"        return x + n\n    }}\n}}\npub let add_{sh} = make_adder_{sh}(5)\n"
+                                      f"pub fn calls_of_{sh}() {{ return calls_{sh} }}\n"
+                                    # ... and a mutator that ENDS WITHOUT A VALUE (if without else / bare return / loop / assignment)
+                                    + f"let mut total_{sh} = 0\npub fn reg_{sh}(n) {{\n" + [
+                                        f"    if n > 0 {{\n        total_{sh} = total_{sh} + n\n    }}\n",
+                                        f"    total_{sh} = total_{sh} + n\n    return\n",
+                                        f"    let mut i = 0\n    while i < n {{\n        total_{sh} = total_{sh} + 1\n        i = i + 1\n    }}\n",
+                                        f"    total_{sh} = total_{sh} + n\n"][(idx + len(sh) + ord(sh[-1])) % 4]
+                                    + f"}}\npub fn total_of_{sh}() {{ return total_{sh} }}\n")
         mids = ["m%d" % i for i in range(k)]
         uses = {}
         for i, m in enumerate(mids):
@@ -793,6 +804,13 @@ def bytecode_projects(seed, n):
             src += f'io.println("I:{m}")\n'
             for sh in use:
                 src += f"let v_{m}_{sh} = {sh}.bump_{sh}()\npub fn got_{m}_{sh}() {{ return v_{m}_{sh} }}\n"
+            # the module defines a global of its own, then (first call from here) calls another module's closure and its
+            # value-less mutator, then defines another global: every importer must see all of them afterwards
+            src += f"pub let base_{m} = {10 + i}\n"
+            for sh in use:
+                src += f"pub let sum_{m}_{sh} = {sh}.add_{sh}(1)\n{sh}.reg_{sh}(5)\n"
+                src += f"pub fn calls_via_{m}_{sh}() {{ return {sh}.calls_of_{sh}() }}\npub fn total_via_{m}_{sh}() {{ return {sh}.total_of_{sh}() }}\n"
+            src += f"pub let after_{m} = {20 + i}\n"
             if imp_mid:
                 src += f"pub fn via_{m}() {{ return {imp_mid}.got_{imp_mid}_{uses[imp_mid][0]}() }}\n"
             files[m + ".aelys"] = src
@@ -809,10 +827,30 @@ def bytecode_projects(seed, n):
         if direct:
             for sh in shared:
                 main += f'io.println("F:{sh}")\nio.println({sh}.bump_{sh}())\n'
-        files["main.aelys"] = main
         per_shared = {sh: sum(1 for m in mids if sh in uses[m]) for sh in shared}
+        expect = []
+
+        def show(label, expr, value):
+            nonlocal main
+            main += f'io.println("K:{label}")\nio.println({expr})\n'
+            expect.append((label, str(value)))
+        for i, m in enumerate(mids):
+            show(f"base_{m}", f"{m}.base_{m}", 10 + i)
+            show(f"after_{m}", f"{m}.after_{m}", 20 + i)
+            for sh in uses[m]:
+                show(f"sum_{m}_{sh}", f"{m}.sum_{m}_{sh}", 6)
+        for sh in shared:
+            via = next(m for m in mids if sh in uses[m])
+            if direct:
+                show(f"mainsum_{sh}", f"{sh}.add_{sh}(2)", 7)
+                main += f"{sh}.reg_{sh}(5)\n"
+                show(f"calls_{sh}", f"{sh}.calls_of_{sh}()", per_shared[sh] + 1)
+                show(f"total_{sh}", f"{sh}.total_of_{sh}()", 5 * (per_shared[sh] + 1))
+            show(f"calls_via_{via}_{sh}", f"{via}.calls_via_{via}_{sh}()", per_shared[sh] + (1 if direct else 0))
+            show(f"total_via_{via}_{sh}", f"{via}.total_via_{via}_{sh}()", 5 * (per_shared[sh] + (1 if direct else 0)))
+        files["main.aelys"] = main
         out.append({"name": f"bc{seed}-{idx}", "files": files, "modules": sorted(set(["main"] + mids + shared + (["base"] if chain else []))),
-                    "per_shared": per_shared, "direct": direct, "first_use_differs": first_use_differs,
+                    "per_shared": per_shared, "direct": direct, "first_use_differs": first_use_differs, "expect": expect,
                     "shape": f"{'main names its modules in reverse import order, ' if first_use_differs else ''}{k} middles, shared {shared}, chain {chain}, main imports shared {direct}, "
                     f"a middle imports a middle {nested_mid}"})
     return out
@@ -851,6 +889,15 @@ def bytecode_oracle(proj, out):
             got[l[2:]].append(lines[i + 1])
         if l.startswith("F:") and i + 1 < len(lines):
             final[l[2:]] = lines[i + 1]
+    seen = {}
+    for i, l in enumerate(lines):
+        if l.startswith("K:") and i + 1 < len(lines):
+            seen[l[2:]] = lines[i + 1]
+    for label, want in proj.get("expect", []):
+        if seen.get(label) != want:
+            fails.append(("bytecode:module-state-stale", f"main reads {label} = {seen.get(label)}, expected {want}: a module's global (a value defined before / "
+                          "after its top level called another module's closure or value-less function, or the state that callee changed) "
+                          "is not what every importer must observe after all top levels ran"))
     for sh, n in proj["per_shared"].items():
         want = [str(x) for x in range(1, n + 1)]
         if sorted(got.get(sh, []), key=lambda v: (len(v), v)) != want:
